@@ -9,7 +9,7 @@ from .schemagen import SchemaGen
 CODE = {1: "verdict", 2: "decoded value", 3: "generator status", 4: "model out of fuel", 5: "outside the modelled fragment"}
 
 
-def build_cases(ctx, n, focus, classes, prefix, gen_kwargs=None, docs_per=3, extra_schemas=(), minsized=False, fam="random", max_docs=120):
+def build_cases(ctx, n, focus, classes, prefix, gen_kwargs=None, docs_per=3, extra_schemas=(), minsized=False, fam="random", max_docs=120, schema_hook=None):
     rng = ctx.rng
     cases = []
     schemas = list(extra_schemas)
@@ -17,6 +17,8 @@ def build_cases(ctx, n, focus, classes, prefix, gen_kwargs=None, docs_per=3, ext
     while len(schemas) < n:
         schemas.append(g.root())
     for i, sc in enumerate(schemas):
+        if schema_hook:
+            schema_hook(sc)
         dg = Docs(sc, rng)
         docs = []
         seen = set()
